@@ -13,7 +13,13 @@
 //	          alive; searcher: the abstract specification re-implemented in Go (maps of last values);
 //	          correspondence: `api` (concrete Lean model) and `aapi` (Lean specification vs the Go one).
 //	api-exhaustive  all histories of <= 3 (quick) / <= 4 (thorough) calls over 6 calls x 3 names x 3 values.
-//	eval      tengo.Eval(expr, params) == `__res__ := (expr)` run by hand; correspondence `api-eval`.
+//	api-bool  histories over scripts that assign, copy and compare booleans (statements outside the model's language are
+//	          evaluated by the Go specification only), bool-heavy values, inputs sometimes named like builtin functions;
+//	          a fixed corpus (every bool value x every bool script, original / clones before and after Run) on every seed.
+//	          In all api streams every Variable handed out by Get/GetAll is also read through Value() and all typed accessors.
+//	          conv/to/acc read every value again from a Clone and from the script's copy().
+//	eval      tengo.Eval(expr, params) == `__res__ := (expr)` run by hand == the value known by construction; expressions
+//	          over all binary operators and '%'-laden literals / parameters (evalgen.go); correspondence `api-eval`.
 package main
 
 import (
@@ -136,6 +142,15 @@ func checkConv(seed uint64, g interface{}, maxStr, maxBytes int) {
 			Observed: fmt.Sprintf("%#v", r), Expected: fmt.Sprintf("%#v", n), Oracle: "reflect.DeepEqual(ToInterface(FromInterface(g)), normalize(g))"})
 		return
 	}
+	// searcher 3: the same value read from a Clone of the Compiled it was added to, and from the script's copy() of it
+	var routes [2]*tengo.Variable
+	withLimits(maxStr, maxBytes, func() {
+		routes[0], _ = viaClone(g)
+		routes[1], _ = viaCopy(g)
+	})
+	if checkRoutes("conv", in, routes, ns) {
+		return
+	}
 	if drv != nil {
 		if ans := ask(lib.L("to", tvOf(o).sexp(), tab)); ans != "ok "+rs {
 			res.Disagree(lib.Disagreement{Stream: "to", Input: in, Model: clip(ans, 400), Impl: clip("ok "+rs, 400)})
@@ -144,6 +159,29 @@ func checkConv(seed uint64, g interface{}, maxStr, maxBytes int) {
 			res.Disagree(lib.Disagreement{Stream: "go-norm", Input: in, Model: clip(ans, 400), Impl: clip("ok "+ns, 400)})
 		}
 	}
+}
+
+// checkRoutes: a value that went through Clone (routes[0]) or the script's copy() (routes[1]) reads as `want` through
+// Value() and follows the coercion table through every typed accessor.
+func checkRoutes(stream string, in convInput, routes [2]*tengo.Variable, want string) (violated bool) {
+	for i, v := range routes {
+		if v == nil {
+			continue
+		}
+		route := []string{"s.Add(\"v\", g); c := s.Compile(); c.Clone().Get(\"v\")", "s := NewScript(`w := copy(v)`); s.Add(\"v\", g); s.Run().Get(\"w\")"}[i]
+		sig := []string{"clone-read-not-the-value-added", "script-copy-read-not-the-value-added"}[i]
+		if got := canonG(v.Value()); got != want && !(hasError(tvOf(v.Object())) && multiMapInside(v.Object())) {
+			res.Violate(lib.Violation{Signature: sig, Stream: stream, Input: in, Observed: route + ".Value() = " + clip(got, 300), Expected: clip(want, 300),
+				Oracle: "a clone / a script copy of a variable reads as the value the host added, converted as documented (normalize(g))"})
+			return true
+		}
+		if what, got, want, bad := badReading(v); bad {
+			res.Violate(lib.Violation{Signature: sig + "-" + strings.ToLower(what), Stream: stream, Input: in, Observed: route + "." + what + "() = " + clip(got, 300), Expected: clip(want, 300),
+				Oracle: "typed accessors of the variable read from a clone / script copy follow the coercion table of docs/runtime-types.md for the value " + clip(tvOf(v.Object()).sexp(), 200)})
+			return true
+		}
+	}
+	return false
 }
 
 // checkTo: ToInterface on an arbitrary object (also objects FromInterface never builds).
@@ -156,6 +194,12 @@ func checkTo(seed uint64, t *TV) {
 	if want := canonG(goOfObject(o)); rs != want {
 		res.Violate(lib.Violation{Signature: "tointerface-not-documented-go-type", Stream: "to", Input: in,
 			Observed: clip(rs, 400), Expected: clip(want, 400), Oracle: "Go type of each Tengo type per docs/runtime-types.md"})
+		return
+	}
+	var routes [2]*tengo.Variable
+	routes[0], _ = viaClone(t.obj())
+	routes[1], _ = viaCopy(t.obj())
+	if checkRoutes("to", in, routes, canonG(goOfObject(t.obj()))) {
 		return
 	}
 	if drv != nil {
@@ -304,29 +348,12 @@ func checkAcc(seed uint64, o tengo.Object) {
 	}
 	tab := strtab(o)
 	for _, a := range accessors {
-		got := accReal(v, a)
 		in := convInput{"acc", seed, 0, 0, a + " of " + clip(ts, 400)}
 		res.Count("acc", a+ts, true)
-		want := accExpected(o, a)
-		if a == "String" && multiMapInside(o) {
+		got, want, bad, skipped := accCheck(v, o, a)
+		if skipped {
 			res.Skipped++ // text depends on Go's map iteration order
 			continue
-		}
-		bad := want != "" && got != want
-		if want == "" && a == "String" {
-			s := v.String()
-			switch x := o.(type) {
-			case *tengo.Float:
-				f, e := strconv.ParseFloat(s, 64)
-				bad = e != nil || fbits(f) != fbits(x.Value)
-			case *tengo.Array:
-				bad = !strings.HasPrefix(s, "[") || !strings.HasSuffix(s, "]")
-			case *tengo.Map:
-				bad = !strings.HasPrefix(s, "{") || !strings.HasSuffix(s, "}")
-			case *tengo.Error:
-				bad = !strings.HasPrefix(s, "error: ")
-			}
-			want = "strconv / \"[...]\" / \"{...}\" / \"error: ...\" form"
 		}
 		if bad {
 			res.Violate(lib.Violation{Signature: "variable-" + strings.ToLower(a) + "-not-coercion-table", Stream: "acc", Input: in,
@@ -340,6 +367,11 @@ func checkAcc(seed uint64, o tengo.Object) {
 			}
 		}
 	}
+	// the same accessors on the variable read from a clone and from a script copy
+	var routes [2]*tengo.Variable
+	routes[0], _ = viaClone(tvOf(o).obj())
+	routes[1], _ = viaCopy(tvOf(o).obj())
+	checkRoutes("acc", convInput{"acc", seed, 0, 0, "accessors of " + clip(ts, 400) + " after Clone / copy()"}, routes, canonG(goOfObject(tvOf(o).obj())))
 }
 
 // ---- eval ----
@@ -356,27 +388,63 @@ type evalInput struct {
 }
 
 func checkEval(seed uint64, r *lib.RNG) {
-	expr := lib.Pick(r, evalExprs)
-	mk := func() map[string]interface{} { // same RNG stream twice would diverge: build once, values are not mutated by Eval
-		p := map[string]interface{}{}
-		if r.Chance(7, 8) {
-			p["a"] = int(lib.Pick(r, intPool))
-		}
-		if r.Chance(7, 8) {
-			p["b"] = lib.Pick(r, []interface{}{int64(3), 2.5, "str", byte(65)})
-		}
-		if r.Chance(3, 4) {
-			p["s"] = genString(r)
-		}
-		if r.Chance(3, 4) {
-			p["m"] = map[string]interface{}{"k": genGoOK(r, 1, 0, tengo.MaxStringLen, tengo.MaxBytesLen)}
-		}
-		if r.Chance(1, 2) {
-			p["u"] = genGoOK(r, 1, 2, tengo.MaxStringLen, tengo.MaxBytesLen)
-		}
-		return p
+	params := map[string]interface{}{}
+	aVal := lib.Pick(r, intPool)
+	sVal := genString(r)
+	if r.Chance(1, 3) {
+		sVal = lib.Pick(r, evalPctStrings)
 	}
-	params := mk()
+	pVal := lib.Pick(r, evalPctStrings) + lib.Pick(r, []string{"", "%", "x", "%d"})
+	aInt, sStr := false, false
+	if r.Chance(7, 8) {
+		params["a"], aInt = int(aVal), true
+	}
+	if r.Chance(7, 8) {
+		params["b"] = lib.Pick(r, []interface{}{int64(3), 2.5, "str", byte(65), int64(0), "%", byte('%')})
+	}
+	if r.Chance(3, 4) {
+		params["s"], sStr = sVal, true
+	}
+	if r.Chance(3, 4) {
+		params["m"] = map[string]interface{}{"k": genGoOK(r, 1, 0, tengo.MaxStringLen, tengo.MaxBytesLen)}
+	}
+	if r.Chance(1, 2) {
+		params["u"] = genGoOK(r, 1, 2, tengo.MaxStringLen, tengo.MaxBytesLen)
+	}
+	pStr := r.Chance(3, 4)
+	if pStr {
+		params["p"] = pVal
+	}
+	if r.Chance(3, 4) {
+		params["n"] = lib.Pick(r, []interface{}{1, 2, 3, 7, -2, int64(10)})
+	}
+	if r.Chance(3, 4) {
+		params["f"] = r.Bool()
+	}
+	expr, pinned, want := "", false, interface{}(nil)
+	switch r.Intn(4) {
+	case 0:
+		expr = lib.Pick(r, evalExprs)
+	case 1:
+		pe := evalPinned(r, aVal, sVal, pVal)
+		expr, pinned, want = pe.expr, true, pe.want
+		for _, n := range pe.needs {
+			if (n == "a" && !aInt) || (n == "s" && !sStr) || (n == "p" && !pStr) {
+				pinned = false
+			}
+		}
+		if r.Chance(1, 4) {
+			expr = lib.Pick(r, []string{" ", "\t", "\n"}) + expr + lib.Pick(r, []string{" ", "\n", ""})
+		}
+	default:
+		expr = evalRandom(r, 1+r.Intn(3))
+	}
+	checkEvalOne(seed, expr, params, pinned, want)
+}
+
+// checkEvalOne: Eval(expr, params) against (1) the same expression compiled and run by hand as `__res__ := (expr)` with
+// the parameters added as variables and (2) when pinned, the value the expression has by construction.
+func checkEvalOne(seed uint64, expr string, params map[string]interface{}, pinned bool, pinnedWant interface{}) {
 	in := evalInput{"eval", seed, expr, nil}
 	keys := make([]string, 0, len(params))
 	for k := range params {
@@ -393,6 +461,9 @@ func checkEval(seed uint64, r *lib.RNG) {
 		}
 	}
 	res.Count("eval", expr+strings.Join(in.Params, ","), true)
+	if strings.Contains(expr, "%") {
+		res.Dist("eval:has-percent")
+	}
 	got, gerr := tengo.Eval(context.Background(), expr, params)
 	// by hand
 	var want interface{}
@@ -421,6 +492,18 @@ func checkEval(seed uint64, r *lib.RNG) {
 			want = c.Get("__res__").Value()
 		}
 	}
+	if pinned && nbad == 0 {
+		res.Dist("eval:pinned")
+		if gerr != nil || canonG(got) != canonG(pinnedWant) {
+			obs := clip(canonG(got), 300)
+			if gerr != nil {
+				obs = "error: " + gerr.Error()
+			}
+			res.Violate(lib.Violation{Signature: "eval-value-not-the-expression-value", Stream: "eval", Input: in,
+				Observed: obs, Expected: clip(canonG(pinnedWant), 300), Oracle: "value the expression has by construction (string/char literals are themselves, + concatenates, int % int is Go's remainder, format verbs %d %s %%)"})
+			return
+		}
+	}
 	switch {
 	case (gerr != nil) != (werr != nil), gerr != nil && nbad <= 1 && gerr.Error() != werr.Error():
 		res.Violate(lib.Violation{Signature: "eval-error-differs-from-script", Stream: "eval", Input: in,
@@ -437,7 +520,7 @@ func checkEval(seed uint64, r *lib.RNG) {
 		res.Dist("eval:value")
 	}
 	// correspondence: expressions of the model's language (a parameter name or an int literal)
-	if drv == nil || !(trimmed == "5" || len(trimmed) == 1 || trimmed == "zz" || trimmed == "__res__") {
+	if drv == nil || !(trimmed == "5" || (len(trimmed) == 1 && strings.Contains("absmupnf", trimmed)) || trimmed == "zz" || trimmed == "__res__") {
 		return
 	}
 	e := "(var " + lib.HexS(trimmed) + ")"
@@ -523,7 +606,11 @@ func apiCase(seed uint64) {
 	if r.Chance(1, 4) {
 		maxStr, maxBytes = 6+r.Intn(10), 6+r.Intn(10)
 	}
-	runHistory("api", genHistory(r, maxStr, maxBytes), maxStr, maxBytes, apiInput{CaseSeed: seed}, true)
+	ops := genHistory(r, maxStr, maxBytes)
+	if r.Chance(1, 6) {
+		ops = renameInputs(r, ops, maxStr, maxBytes) // host variables named like builtin functions (finding O32)
+	}
+	runHistory("api", ops, maxStr, maxBytes, apiInput{CaseSeed: seed}, true)
 }
 
 func evalCase(seed uint64) { checkEval(seed, lib.NewRNG(seed)) }
@@ -542,7 +629,8 @@ func main() {
 	res.DriverUsed = drv != nil
 	res.Rule = "conv: Go values from a recursive generator over every case of FromInterface's switch plus ~25 unsupported types, limits lowered in 1/3 of the cases; " +
 		"non-trivial = nested container or conversion error. api: histories of 4..30 calls over 23 scripts with up to 3 Script handles and any number of Compiled/clone handles; " +
-		"non-trivial = contains Set, Clone or a failing Run; distinct by the printed history. acc: every accessor on every generated object. eval: 29 expressions x random params."
+		"non-trivial = contains Set, Clone or a failing Run; distinct by the printed history. api-bool: the same over 13+2 scripts that assign/copy/compare booleans with bool-heavy values (+ fixed corpus). " +
+		"acc: every accessor on every generated object (also after Clone / copy()). eval: generated expressions over all binary operators, '%'-laden string/char literals and format calls (+29 fixed shapes, + fixed corpus) x random params."
 	if f.Replay != "" {
 		replay(f.Replay)
 		res.Write(f.Out)
@@ -562,7 +650,10 @@ func main() {
 	for i, n := 0, f.Scale(2000, 100000); i < n; i++ {
 		apiCase(rng.U64())
 	}
-	for i, n := 0, f.Scale(1500, 30000); i < n; i++ {
+	for i, n := 0, f.Scale(1500, 40000); i < n; i++ {
+		apiBoolCase(rng.U64())
+	}
+	for i, n := 0, f.Scale(2500, 50000); i < n; i++ {
 		evalCase(rng.U64())
 	}
 	maxLen := f.Scale(3, 4)
@@ -579,6 +670,10 @@ func main() {
 	res.Exhaustive = true
 	res.Extra = map[string]interface{}{"exhaustive_history_len": maxLen, "exhaustive_histories": total, "exhaustive_scripts": exhScripts}
 	// known findings
+	lib.Probes = append(lib.Probes, lib.Probe{ID: "O32", Props: []string{"C15"},
+		Input:    "for name in len, copy, format, is_int, …: s := NewScript(`out := <name>`); s.Add(name, v); c := s.Compile(); cl := c.Clone(); Get/GetAll before and after Run on both; cl.Set(name, v2); cl.Run()",
+		WhatFail: "a host variable named like a builtin function reads as the value the host set: in the script (out), through Get/GetAll, on the original and on a clone (finding O32, repaired)",
+		Run:      probeBuiltinNamedVariables})
 	lib.RunProbes(res, "C15", f.Known)
 	res.Count("finding-probe", "C15-1", true)
 	if fails, obs := probeSharedInputs(); fails {
@@ -604,7 +699,19 @@ func corpus() {
 		checkConv(uint64(i), g, 1<<31-1, 1<<31-1)
 		checkConv(uint64(i), g, 10, 10)
 	}
-	for _, t := range []*TV{{K: "u"}, {K: "a"}, {K: "m"}, {K: "ia"}, {K: "im"}, {K: "y"}, {K: "s"}, {K: "t", I: -62135596800}, {K: "f", F: nanBits},
+	for i, mk := range boolValues {
+		checkConv(uint64(100+i), mk(), 1<<31-1, 1<<31-1)
+		checkConv(uint64(100+i), mk(), 10, 10)
+		if o, err := tengo.FromInterface(mk()); err == nil {
+			checkTo(uint64(100+i), tvOf(o))
+			checkAcc(uint64(100+i), o)
+		}
+	}
+	for i, e := range evalCorpus() {
+		checkEvalOne(uint64(i), e.expr, e.params, e.pinned, e.want)
+	}
+	boolCorpus()
+	for _, t := range []*TV{{K: "b", B: true}, {K: "b"}, {K: "ia", Kids: []*TV{tb(true), tb(false)}}, {K: "u"}, {K: "a"}, {K: "m"}, {K: "ia"}, {K: "im"}, {K: "y"}, {K: "s"}, {K: "t", I: -62135596800}, {K: "f", F: nanBits},
 		{K: "f", F: fbits(2.9)}, {K: "f", F: fbits(-2.9)}, {K: "i", I: 1<<32 + 65}, {K: "s", S: []byte("12")}, {K: "s", S: []byte("1e3")}, {K: "s", S: []byte(" 1")},
 		{K: "e", Kids: []*TV{{K: "e", Kids: []*TV{{K: "s", S: []byte("in")}}}}}, {K: "uf", I: 1}, {K: "o", I: 1}} {
 		checkTo(0, t)
@@ -662,6 +769,8 @@ func replay(path string) {
 			convCase(in.CaseSeed)
 		case in.Stream == "acc" || in.Stream == "var-acc":
 			accCase(in.CaseSeed)
+		case in.Stream == "api-bool" || in.Stream == "api-bool-absspec":
+			apiBoolCase(in.CaseSeed)
 		case strings.HasPrefix(in.Stream, "api-eval") || in.Stream == "eval":
 			evalCase(in.CaseSeed)
 		case strings.HasPrefix(in.Stream, "api"):
